@@ -887,6 +887,12 @@ func (g *G) genWorkloads() {
 		g.c.Objects.Pods = append(g.c.Objects.Pods, w.pods...)
 	}
 	for ci, cc := range classes {
+		if g.p(0.4) {
+			// a companion in the clones' leaf queue: an older workload with two sub-groups of which one runs above its
+			// minimum and the other is below it (a worker was lost, its replacement is pending). It is not a clone; it
+			// is what the job comparators of the queue have to rank the clones against.
+			g.mixedSubGroupCompanion(fmt.Sprintf("comp%d", ci), cc.queue, cc.preemp, &wid)
+		}
 		for j := 0; j < cc.count; j++ {
 			prio := pick(g, []string{"p-train", "p-train", "p-mid", "p-low", "p-99"})
 			if cc.preemp == enginev2alpha2.NonPreemptible || (cc.preemp == "" && g.p(0.2)) {
@@ -1300,4 +1306,46 @@ func (g *G) preplace(w *workload) bool {
 		return false
 	}
 	return true
+}
+
+// mixedSubGroupCompanion adds a partially running workload with sub-groups sa (min 1, two running pods: above its
+// minimum) and sb (min 2, one running and one pending pod: below it), cpu-only pods, older than every clone.
+func (g *G) mixedSubGroupCompanion(name, queue string, preemp enginev2alpha2.Preemptibility, wid *int) {
+	prio := pick(g, []string{"p-train", "p-train", "p-mid", "p-low"})
+	if preemp == enginev2alpha2.NonPreemptible {
+		prio = "p-build"
+	}
+	created := g.now.Add(-time.Duration(600+g.in(1, 100)) * time.Minute)
+	wl := fmt.Sprintf("w%d", *wid)
+	*wid++
+	pg := &enginev2alpha2.PodGroup{ObjectMeta: metav1.ObjectMeta{Name: "pg-" + wl, Namespace: "ns", UID: types.UID("pgu-" + wl),
+		CreationTimestamp: metav1.NewTime(created), Annotations: map[string]string{"verif/companion": name}},
+		Spec: enginev2alpha2.PodGroupSpec{MinMember: 3, Queue: queue, PriorityClassName: prio, Preemptibility: preemp,
+			SubGroups: []enginev2alpha2.SubGroup{{Name: "sa", MinMember: 1}, {Name: "sb", MinMember: 2}}}}
+	t := podTemplate{kind: "cpu", cpu: 100, mem: 64 << 20, labels: map[string]string{"app-kind": "train"}}
+	plan := []struct{ sub, state string }{{"sa", "running"}, {"sa", "running"}, {"sb", "running"}, {"sb", "pending"}}
+	var pods []*v1.Pod
+	placedAny := false
+	for i, pl := range plan {
+		p := g.mkPod(fmt.Sprintf("%s-%d", wl, i), pg.Name, pl.sub, t, created)
+		if pl.state == "running" {
+			ok := false
+			for _, ni := range g.r.Perm(len(g.nodes)) {
+				if ns := g.nodes[ni]; g.fits(ns, p) {
+					g.place(ns, p, "running", pg)
+					ok, placedAny = true, true
+					break
+				}
+			}
+			if !ok {
+				return // no room for the running part: no companion in this case
+			}
+		}
+		pods = append(pods, p)
+	}
+	if placedAny {
+		pg.Annotations["kai.scheduler/last-start-timestamp"] = g.now.Add(-10 * time.Hour).Format(time.RFC3339)
+	}
+	g.c.Objects.PodGroups = append(g.c.Objects.PodGroups, pg)
+	g.c.Objects.Pods = append(g.c.Objects.Pods, pods...)
 }
